@@ -227,11 +227,21 @@ class Check:
 
     # -- binding A
     def replay_stage(self, name, module, cfg, tlc_workers=8, harness_workers=4, timeout=1800, exhaustive=True,
-                     worker_timeout_ms=20000, **kw):
+                     worker_timeout_ms=20000, tee=None, **kw):
         tag = "%s_%s_%s" % (self.prop, self.tier, name)
         log("[%s] stage %s: TLC %s/%s -> harness replay" % (self.prop, name, module, cfg))
         h = HarnessReplay(tag, workers=harness_workers, timeout_ms=worker_timeout_ms)
-        res = run_tlc(tag, module, cfg, sink=h, workers=tlc_workers, timeout=timeout, **kw)
+        sink = h
+        teef = None
+        if tee:
+            teef = open(tee, "w")
+            class Tee:
+                def write(self_, s):
+                    h.write(s); teef.write(s)
+            sink = Tee()
+        res = run_tlc(tag, module, cfg, sink=sink, workers=tlc_workers, timeout=timeout, **kw)
+        if teef:
+            teef.close()
         fails, summary = h.finish()
         self._account_tlc(name, res, exhaustive)
         self.traces += summary["records"]
@@ -261,34 +271,62 @@ class Check:
         return res
 
     # -- binding B
-    def trace_stage(self, name, gen_args, module, cfg, timeout=1800, heap="4g"):
+    def trace_stage(self, name, gen_args, module, cfg, timeout=1800, heap="4g", trace_path=None, gen=True):
         """harness records ndjson traces of the real code; the trace spec must accept them."""
         tag = "%s_%s_%s" % (self.prop, self.tier, name)
-        trace_path = os.path.join(WORK, tag + ".ndjson")
+        if trace_path is None:
+            trace_path = os.path.join(WORK, tag + ".ndjson")
         log("[%s] stage %s: harness trace %s -> TLC %s" % (self.prop, name, " ".join(gen_args), module))
-        r = subprocess.run([HARNESS, "trace"] + gen_args + ["--seed", str(self.seed), "--out", trace_path],
-                           stdout=subprocess.PIPE, stderr=subprocess.PIPE, text=True)
-        if r.returncode != 0:
-            raise ToolError("harness trace failed: " + r.stderr[-2000:])
         info = {}
-        for line in r.stdout.splitlines():
-            if line.startswith("TRACEINFO "):
-                info = json.loads(line[10:])
+        if gen:
+            r = subprocess.run([HARNESS, "trace"] + gen_args + ["--seed", str(self.seed), "--out", trace_path],
+                               stdout=subprocess.PIPE, stderr=subprocess.PIPE, text=True)
+            if r.returncode != 0:
+                raise ToolError("harness trace failed: " + r.stderr[-2000:])
+            for line in r.stdout.splitlines():
+                if line.startswith("TRACEINFO "):
+                    info = json.loads(line[10:])
         res = run_tlc(tag, module, cfg, sink=None, workers=1, timeout=timeout, deque=True, heap=heap,
                       env_extra={"TRACE": trace_path})
+        rejected = res.exit in (10, 12, 13)
         self._account_tlc(name, res, exhaustive=False, trace=True)
-        self.stage_info[-1].update(info)
+        self.stage_info[-1].update({k: v for k, v in info.items() if k != "samples"})
         n_traces = info.get("traces", 0)
         n_events = info.get("events", 0)
         self.evaluations += info.get("cases", n_traces)
         self.nontrivial += info.get("nontrivial", 0)
         for s in info.get("samples", []):
             if len(self.samples) < 8:
-                self.samples.append({"stage": name, "trace_event": s})
-        if res.exit == 0:
+                self.samples.append({"stage": name, "trace": s})
+        if rejected:
+            self.fails.append(self._trace_rejection(name, res, trace_path))
+        else:
             self.traces += n_traces
-        log("[%s]   %d traces / %d events, TLC exit %s, %.1fs" % (self.prop, n_traces, n_events, res.exit, res.wall))
+        log("[%s]   %d traces / %d events, TLC exit %s (%s), %.1fs" %
+            (self.prop, n_traces, n_events, res.exit, "REJECTED" if rejected else "accepted", res.wall))
         return res, info, trace_path
+
+    def _trace_rejection(self, name, res, trace_path):
+        """The trace spec could not explain an event: keep the longest matched prefix's
+        last run (from its Reset event) and the first unmatched event."""
+        with open(res.log_path) as f:
+            text = f.read()
+        m = re.search(r'TRACE-REJECTED at event",\s*(\d+)', text)
+        at = int(m.group(1)) if m else None
+        excerpt, reset = [], None
+        if at is not None:
+            with open(trace_path) as f:
+                lines = f.readlines()
+            lo = at - 1
+            while lo > 0 and '"Reset"' not in lines[lo][:80] and at - lo < 400:
+                lo -= 1
+            excerpt = [json.loads(x) for x in lines[lo:at + 1][:400]]
+            reset = excerpt[0] if excerpt else None
+        tail = text[-3000:]
+        return {"stage": name, "rec": None,
+                "detail": {"why": "trace not explained by the specification", "rejected_at_event": at,
+                           "run": reset, "first_unmatched": excerpt[at - lo - 0 - 1] if excerpt and at is not None and at - lo - 1 < len(excerpt) else None,
+                           "excerpt": excerpt, "tlc_tail": tail}}
 
     def _account_tlc(self, name, res, exhaustive, trace=False):
         info = {"stage": name, "tlc_exit": res.exit, "states": res.distinct, "transitions": res.generated,
@@ -298,7 +336,9 @@ class Check:
         self.transitions += res.generated
         if not exhaustive:
             self.exhaustive = False
-        if res.exit in (12, 13):
+        if trace and res.exit in (10, 12, 13):
+            pass
+        elif res.exit in (12, 13):
             # the specification itself violates an invariant/property: a design-level finding
             keep = os.path.join(VERIF, "replays", self.prop)
             os.makedirs(keep, exist_ok=True)
